@@ -163,6 +163,24 @@ CLAIMED.update({
              "byte format beyond C10's log); 'opening never panics' is an observation of the oracle runs; header fields other "
              "than the lengths are not covered by the entry checksum (a flip of hash/sequence in the header is caught by the "
              "key comparison or not at all - noted in DESIGN.md)."),
+    "C09": dict(
+        text="Theorems over every event sequence of the block-manager model (a writer asks for a block / a block is finished / "
+             "a reclaim is done; any picker, any threshold, any reclaim concurrency): every block is clean, being written, "
+             "evictable or being reclaimed - exactly one of them - so a block being written is handed to nobody else, cannot be "
+             "picked and is not being reclaimed; whenever a writer waits, a reclaim is running (unless every block is being "
+             "written) and the block it frees goes to a waiter; under FIFO picking the reclaim order is the fill order. Entry "
+             "level (one-key model): the reclaim step preserves the lookup-correctness invariant (loadable intact or a miss), an "
+             "entry picked by the reinsertion filter is served again after its block is reclaimed and the flusher drained. "
+             "Correspondence: the real BlockManager's event trace (hook H2) against the extracted model - same blocks handed out "
+             "in the same order, same reclaims started in the same order - on wrap-around workloads with 1..2 flushers, 1..2 "
+             "reclaimers, thresholds 1..2, 4..8 blocks; oracle: sustained overload of several device capacities, wait()/close() "
+             "return, every lookup intact or a miss, reinsertion survival.",
+        ref="4/C09", tech="Coq proof (partition invariant by permutation, progress invariant) + extracted-model correspondence "
+                          "through an event hook + overload oracle",
+        note="PARTIAL: 'eventually obtains a block' is proved as 'a reclaim is in progress whenever a writer waits'; that the "
+             "reclaimer task itself terminates (device reads/writes complete) is the oracle's observation; completion orders of "
+             "concurrent block writes are exercised, not enumerated; open finding F10 (reinserted entries and recovery) is "
+             "reported as KNOWN-FINDING."),
 })
 
 NOT_YET = "machinery for this property is not built yet in this session (design in DESIGN.md section 4)"
@@ -191,7 +209,7 @@ def main():
         hooks=dict(guard="feature verif (cargo feature on foyer-storage / foyer-memory / foyer)",
                    enable="the harness crate /verif/harness depends on /repo by path with features = [\"verif\"] where hooks exist",
                    baseline_off_cmd="cd /repo && cargo nextest run --workspace --no-fail-fast --offline --test-threads 8",
-                   source_commits=["f533e99"], add_only=True),
+                   source_commits=["f533e99", "0d9d871"], add_only=True),
         engines=[dict(name="coq+correspondence", path="/verif/check",
                       serves_properties=sorted(CLAIMED.keys()),
                       kind_free_text="Coq 8.16 theorems over hand-written Gallina models; models extracted to OCaml "
